@@ -192,3 +192,118 @@ def path_nodes(p):
             from ..paths import _calls_postorder
             out.extend(_calls_postorder(e.node))
     return out
+
+
+# ------------------------------------------------------------ expressions
+def clone(node):
+    """copy of an AST subtree following _fields only (not the _parent back pointers)"""
+    if isinstance(node, list):
+        return [clone(x) for x in node]
+    if not isinstance(node, ast.AST):
+        return node
+    new = type(node)()
+    for f in node._fields:
+        if hasattr(node, f):
+            setattr(new, f, clone(getattr(node, f)))
+    for a in ("lineno", "col_offset", "end_lineno", "end_col_offset"):
+        if hasattr(node, a):
+            setattr(new, a, getattr(node, a))
+    return new
+
+
+class _Subst(ast.NodeTransformer):
+    def __init__(self, mapping):
+        self.mapping = mapping
+
+    def visit_Name(self, node):
+        if isinstance(node.ctx, ast.Load) and node.id in self.mapping:
+            return clone(self.mapping[node.id])
+        return node
+
+
+def local_defs(fn):
+    """{local name: value expr} for locals assigned exactly once by a plain `x = expr`
+    (not in a loop target / augmented / tuple target)."""
+    counts = {}
+    vals = {}
+    for n in walk_shallow(fn):
+        if isinstance(n, ast.Assign):
+            for t in n.targets:
+                if isinstance(t, ast.Name):
+                    counts[t.id] = counts.get(t.id, 0) + 1
+                    vals[t.id] = n.value
+                elif isinstance(t, (ast.Tuple, ast.List)):
+                    for e in ast.walk(t):
+                        if isinstance(e, ast.Name):
+                            counts[e.id] = counts.get(e.id, 0) + 2
+        elif isinstance(n, ast.AugAssign) and isinstance(n.target, ast.Name):
+            counts[n.target.id] = counts.get(n.target.id, 0) + 2
+        elif isinstance(n, ast.For):
+            for e in ast.walk(n.target):
+                if isinstance(e, ast.Name):
+                    counts[e.id] = counts.get(e.id, 0) + 2
+    params = {a.arg for a in fn.args.args + fn.args.kwonlyargs}
+    return {k: v for k, v in vals.items() if counts.get(k) == 1 and k not in params}
+
+
+def subst_locals(fn, expr, depth=4):
+    """expression with single-assignment locals replaced by their definitions"""
+    defs = local_defs(fn)
+    e = clone(expr)
+    for _ in range(depth):
+        before = ast.dump(e)
+        e = _Subst(defs).visit(e)
+        if ast.dump(e) == before:
+            break
+    return e
+
+
+def expr_values(ev, expr, grid):
+    """[value or NotConst marker] of a pure expression for each env of the grid"""
+    out = []
+    for env in grid:
+        try:
+            out.append(ev.value(expr, env))
+        except NotConst as e:
+            out.append(("?", str(e)))
+        except (TypeError, ZeroDivisionError, ValueError) as e:
+            out.append(("!", type(e).__name__))
+    return out
+
+
+def grid(**axes):
+    """cartesian product of named axes -> list of env dicts"""
+    import itertools
+    keys = list(axes)
+    return [dict(zip(keys, vals)) for vals in itertools.product(*[axes[k] for k in keys])]
+
+
+def same_function(ev, expr, grid_envs, ref):
+    """does expr evaluate to ref(env) on every grid point?  -> (ok, first counterexample)"""
+    for env in grid_envs:
+        try:
+            v = ev.value(expr, env)
+        except NotConst as e:
+            return False, ("not evaluable: %s" % e, env)
+        except Exception as e:
+            return False, ("%s" % type(e).__name__, env)
+        want = ref(env)
+        if isinstance(want, bool) or isinstance(v, bool):
+            if bool(v) != bool(want):
+                return False, (v, env)
+        elif v != want:
+            return False, (v, env)
+    return True, None
+
+
+def last_store_value(nodes, target_text, before=None):
+    """value expr of the last `target = value` in the node list (optionally before index)"""
+    val = None
+    for i, n in enumerate(nodes):
+        if before is not None and i >= before:
+            break
+        if isinstance(n, ast.Assign):
+            for t in n.targets:
+                if norm(t) == target_text:
+                    val = n.value
+    return val
